@@ -12,6 +12,7 @@ package eddsa
 import (
 	"crypto/sha512"
 	"math/big"
+	"sync"
 
 	"github.com/cloudflare/circl/internal/verifref/ecurve"
 	"github.com/cloudflare/circl/internal/verifref/fpx"
@@ -237,7 +238,7 @@ func (v *Variant) Verify(pub, msg, sig, ctx []byte) Verdict {
 	}
 	k := new(big.Int).Mod(fpx.FromLE(v.hash(v.Dom(ctx), sig[:v.B], pub, v.PH(msg))), v.C.N)
 	// D = [S]B - [k]A - R
-	D := v.C.Sub(v.C.Sub(v.baseMult(S), v.scalarMult(k, A)), R)
+	D := v.C.Sub(v.C.Sub(v.baseMult(S), v.kA(k, A, pub)), R)
 	res := Verdict{Cofactorless: v.C.IsIdentity(D)}
 	hD := D
 	for h := v.H; h > 1; h >>= 1 {
@@ -263,6 +264,20 @@ func (v *Variant) Verify(pub, msg, sig, ctx []byte) Verdict {
 	}
 	return res
 }
+
+// kA is [k]A, memoised on (k, encoding of A): the alterations of S of one
+// base signature all share k and A.
+func (v *Variant) kA(k *big.Int, A ecurve.Point, pub []byte) ecurve.Point {
+	key := v.C.Name + "|" + k.Text(16) + "|" + string(pub)
+	if P, ok := kACache.Load(key); ok {
+		return P.(ecurve.Point)
+	}
+	P := v.scalarMult(k, A)
+	kACache.Store(key, P)
+	return P
+}
+
+var kACache sync.Map
 
 // Torsion returns the points of order dividing the cofactor (8 for
 // edwards25519, 4 for edwards448), identity first, as multiples of one
